@@ -23,8 +23,9 @@ func isIface(t types.Type) bool {
 	if t == nil {
 		return false
 	}
-	if _, ok := types.Unalias(t).(*types.TypeParam); ok {
-		return false
+	if tp, ok := types.Unalias(t).(*types.TypeParam); ok {
+		it, isI := tp.Constraint().Underlying().(*types.Interface)
+		return isI && it.NumMethods() > 0
 	}
 	_, ok := under(t).(*types.Interface)
 	return ok
